@@ -74,6 +74,9 @@ def _small(val: Optional[str]):
     elif FLD == 10:
         kid(r, "c1").content = "C1"
         kid(r, "e").tail = val
+    elif FLD == 11:
+        c3 = kid(r, "c3", {"p": val if val else "urn:u"}, "p")      # re-binding of the inherited prefix
+        kid(c3, "h").prefix = "p"
     return r
 
 
@@ -98,7 +101,14 @@ def _tree(val: Optional[str]):
     g.tail = "TG"
     e = Node("e", id="n4")          # empty element
     e.nsmap = shared
-    for p, c in ((r, c1), (r, c2), (c2, g), (r, e)):
+    c3 = Node("c3", id="n5")        # re-binds the inherited prefix p to another URI; its child inherits the re-binding
+    other = {"p": "urn:other"}
+    c3.nsmap = other
+    c3.prefix = "p"
+    h = Node("h", id="n6", content="H")
+    h.nsmap = other
+    h.prefix = "p"
+    for p, c in ((r, c1), (r, c2), (c2, g), (r, c3), (c3, h), (r, e)):
         c.parent = p
         p.children.append(c)
     if FLD == 0:
@@ -247,8 +257,8 @@ except Exception as _ex:          # an exporter crash on the sentinel tree is a 
 def h_general(val: Optional[str]) -> str:
     """
     pre: val is None or len(val) <= MAXLEN
-    pre: val is None or xml_chars(val, FLD in (2, 3, 4, 7))
-    pre: not (FLD == 4 and val is not None and len(val) == 0)
+    pre: val is None or xml_chars(val, FLD in (2, 3, 4, 7, 11))
+    pre: not (FLD in (4, 11) and val is not None and len(val) == 0)
     post: _ == ""
     """
     # 1. the whole document for a concrete sentinel value was scanned and compared in full at import time
